@@ -1,6 +1,6 @@
 #!/bin/sh
 # usage: tools/try_seed.sh <patch.diff> <PROP> [<PROP>...]  -- applies the patch to /repo, runs the quick checks, reverts.
-patch="$1"; shift
+patch="$(readlink -f "$1")"; shift
 cd /repo || exit 3
 if [ -n "$(git status --porcelain --untracked-files=no)" ]; then echo "/repo not clean"; exit 3; fi
 git apply "$patch" 2>/dev/null || git apply -3 "$patch" || { echo "patch does not apply"; git reset -q --hard HEAD; exit 3; }
